@@ -10,10 +10,14 @@ SOURCES = ["src/allmydata/mutable/servermap.py", "src/allmydata/mutable/retrieve
            "src/allmydata/mutable/filenode.py", "src/allmydata/uri.py"]
 DESIGN_REF = "DESIGN.md §2 C10"
 TECHNIQUE = ("Lean 4 theorems over a symbolic-crypto model of the reader's share acceptance (fingerprint, signature, hash chain) and a "
-             "Dolev-Yao closure for who can sign; field-level accept/reject table compared with real single-share reads; corruption, "
-             "rollback and substitution campaigns on real mutable shares on the in-process grid with a 'published versions only' monitor")
+             "Dolev-Yao closure for who can sign, plus an invariant proof over the share hash tree of a whole Retrieve (the signed root "
+             "survives every rejected share); field-level accept/reject table compared with real single-share reads; the real "
+             "Retrieve._validate_block/_handle_bad_share driven event by event against the tree model; corruption, rollback, "
+             "substitution and mutually-consistent-forgery campaigns on real mutable shares on the in-process grid with a "
+             "'published versions only' monitor")
 LEVEL_TEXT = ("Proved (with unforgeability, collision-freeness and Merkle binding as explicit hypotheses, satisfiable by a symbolic "
               "instance): any share the reader accepts carries the signed prefix and the blocks of a version the key holder published; "
+              "within one Retrieve every validated block set hashes to the signed root whatever shares were rejected before; "
               "intact shares are accepted; nothing signed by the file's key on an unpublished prefix, nor the signing or write key, is "
               "derivable from what read-cap / verify-cap holders and servers see. Tied to the code by the field-level decision table "
               "(one altered field of a single share, cold and warm node) and by tampering campaigns. Partial: computational soundness of "
@@ -22,9 +26,15 @@ LEVEL_NOTE = ("Lean kernel + standard axioms; cryptographic assumptions are hypo
               "run on harness/grid.py.")
 RULE = ("(a) single-share files (k=1) with exactly one field altered, read by a cold or warm read-cap node: accept/reject compared with the "
         "driver; (b) k-of-N files with 3 published versions and a random set of shares flipped / truncated / rolled back / replaced by another "
-        "file's share / deleted, read by a fresh read-cap node. A case is one read; distinct = distinct (format, tamper set); non-trivial = at "
-        "least one share was tampered with.")
-TRUSTED = ["harness/grid.py", "the share-field map in this module (written from mutable/layout.py formats)"]
+        "file's share / deleted, read by a fresh read-cap node; (c) k-of-N files with j in {k-1,k,k+1,N} shares replaced by mutually "
+        "consistent forgeries (genuine signed prefix, signature and key; block data, block hash tree and share hash chain of another "
+        "plaintext encoded with the same parameters) plus 0/1 plainly damaged share, SDMF and multi-segment MDMF, delivery policies "
+        "random/fifo/lifo; (d) event sequences (consistent share of family f / damaged share / other failure) on a real Retrieve's "
+        "_validate_block + _handle_bad_share compared with the tree model. A case is one read or one event sequence; distinct = "
+        "distinct (format, tamper set) or event text; non-trivial = at least one share was tampered with / a share was rejected "
+        "before the last event.")
+TRUSTED = ["harness/grid.py", "the share-field map and the share forger in this module (written from mutable/layout.py and publish.py)",
+           "DEFAULT_MUTABLE_MAX_SEGMENT_SIZE is lowered while forged-share files are published (configuration, gives MDMF several segments)"]
 ASSUMPTIONS = ["RSA signatures are unforgeable; SHA-256d tagged hashes are collision-free (hypotheses of the theorems)",
                "the adversary acts through stored share bytes only (servers answer every request)"]
 
@@ -352,10 +362,429 @@ def offset_table_corpus(ctx):
             g.close()
 
 
+# ----------------------------------------------------------------------------- mutually consistent forgeries
+
+def _parse_prefix(data):
+    """(seqnum, root_hash, IV-or-None, k, N, segsize, datalen) from the signed prefix of a share."""
+    if data[0] == 0:
+        (_v, seq, root, iv, k, n, segsize, datalen) = struct.unpack(">BQ32s16sBBQQ", data[:75])
+        return seq, root, iv, k, n, segsize, datalen
+    (_v, seq, root, k, n, segsize, datalen) = struct.unpack(">BQ32sBBQQ", data[:59])
+    return seq, root, None, k, n, segsize, datalen
+
+
+def forge_consistent_shares(readkey, one_share, plaintext, fresh_salts=None):
+    """What somebody holding only the read-cap (readkey) and write access to servers' disks can build:
+    for every share number, a share that keeps the genuine signed prefix, signature, verification key,
+    offsets and encrypted private key of `one_share` verbatim, and whose block data, block hash tree
+    and share hash chain are those of `plaintext` encoded under the same parameters.  The forged
+    shares are consistent with each other; the root of their share hash tree is not the signed
+    root hash.  Written from mutable/layout.py + publish.py (encrypt, zfec, block_hash, HashTree).
+    Returns {shnum: share bytes} (same length as the original)."""
+    import zfec
+    from allmydata import hashtree
+    from allmydata.crypto import aes
+    from allmydata.util import hashutil, mathutil
+    seq, root, iv, k, n, segsize, datalen = _parse_prefix(one_share)
+    assert len(plaintext) == datalen and datalen > 0
+    mdmf = one_share[0] == 1
+    fl = share_fields(one_share)
+    nseg = mathutil.div_ceil(datalen, segsize)
+    (sd_a, sd_b) = fl["share_data"]
+    # salts: SDMF = the signed IV; MDMF = per segment, stored (unsigned) in front of each block
+    blocksize = segsize // k
+    salts = []
+    for s in range(nseg):
+        if not mdmf:
+            salts.append(iv)
+        elif fresh_salts is not None:
+            salts.append(fresh_salts[s])
+        else:
+            a = sd_a + s * (blocksize + 16)
+            salts.append(one_share[a:a + 16])
+    per_share_data = [[] for _ in range(n)]
+    per_share_leaves = [[] for _ in range(n)]
+    for s in range(nseg):
+        seg = plaintext[s * segsize:(s + 1) * segsize]
+        key = hashutil.ssk_readkey_data_hash(salts[s], readkey)
+        crypttext = aes.encrypt_data(aes.create_encryptor(key), seg)
+        piece = mathutil.div_ceil(len(seg), k)
+        pieces = [crypttext[i * piece:(i + 1) * piece].ljust(piece, b"\x00") for i in range(k)]
+        blocks = zfec.Encoder(k, n).encode(pieces)
+        for sh in range(n):
+            if mdmf:
+                per_share_data[sh].append(salts[s] + blocks[sh])
+                per_share_leaves[sh].append(hashutil.block_hash(salts[s] + blocks[sh]))
+            else:
+                per_share_data[sh].append(blocks[sh])
+                per_share_leaves[sh].append(hashutil.block_hash(blocks[sh]))
+    bhts = [list(hashtree.HashTree(per_share_leaves[sh])) for sh in range(n)]
+    sht = hashtree.HashTree([t[0] for t in bhts])
+    assert sht[0] != root
+    out = {}
+    for sh in range(n):
+        chain = b"".join(struct.pack(">H32s", i, sht[i]) for i in sorted(sht.needed_hashes(sh)))
+        repl = {"share_data": b"".join(per_share_data[sh]), "block_hash_tree": b"".join(bhts[sh]), "share_hash_chain": chain}
+        data = bytearray(one_share)
+        for name, val in repl.items():
+            (a, b) = fl[name]
+            assert b - a == len(val), ("forged field has another length than the published one", name, b - a, len(val))
+            data[a:b] = val
+        out[sh] = bytes(data)
+    return out
+
+
+def forgery_scenario(ctx, prm):
+    """One grid, one file with two published versions, then a list of reads (`prm["trials"]`), each
+    after restoring the newest version everywhere and planting `forged` mutually consistent forged
+    shares and at most one plainly damaged one.  `prm` determines the run completely."""
+    import grid
+    from allmydata import uri
+    from allmydata.mutable import publish
+    from allmydata.mutable.publish import MutableData
+    from allmydata.interfaces import SDMF_VERSION, MDMF_VERSION
+    import random as _random
+    fmt = SDMF_VERSION if prm["fmt"] == "SDMF" else MDMF_VERSION
+    k, n, ns = prm["k"], prm["n"], prm["servers"]
+    saved_seg = publish.DEFAULT_MUTABLE_MAX_SEGMENT_SIZE
+    publish.DEFAULT_MUTABLE_MAX_SEGMENT_SIZE = prm["maxseg"]          # configuration: several segments for MDMF
+    try:
+        with grid.Runtime(seed=prm["seed"], policy=prm["policy"]) as rt:
+            g = grid.Grid(grid.fresh_dir("c10f"), rt, num_servers=ns, k=k, happy=1, n=n)
+            try:
+                c = g.clients[0]
+                size = prm["size"]
+                v1 = (b"version one, published by the write-cap holder. " * (size // 40 + 1))[:size]
+                v2 = (b"version TWO, published by the write-cap holder. " * (size // 40 + 1))[:size]
+                node = rt.wait(c.create_mutable_file(MutableData(v1), version=fmt))
+                rt.wait(node.overwrite(MutableData(v2)))
+                published = {v1, v2}
+                readcap = node.get_readonly_uri()
+                readkey = uri.from_string(readcap).readkey
+                files = {sh: p for (_i, sh, p) in g.share_files(node.get_storage_index())}
+                if sorted(files) != list(range(n)):
+                    ctx.count("forgery:placement-incomplete")
+                    return
+                pristine = {sh: open(p, "rb").read() for sh, p in files.items()}
+                for ti, tr in enumerate(prm["trials"]):
+                    er = _random.Random(tr["evil"])
+                    evil = bytes(er.randrange(256) for _ in range(size)) if tr["garbage"] \
+                        else (b"FORGED by somebody who holds only the read-cap! " * (size // 40 + 1))[:size]
+                    one = pristine[0][DATA_OFFSET:DATA_OFFSET + struct.unpack(">Q", pristine[0][84:92])[0]]
+                    nseg = -(-size // _parse_prefix(one)[5])
+                    fresh = [bytes(er.randrange(256) for _ in range(16)) for _ in range(nseg)] if tr["fresh_salts"] else None
+                    forged = forge_consistent_shares(readkey, one, evil, fresh)
+                    for sh, p in files.items():
+                        raw = pristine[sh]
+                        if sh in tr["forged"]:
+                            # verbatim container header (leases, write enabler), forged share data of the same length
+                            raw = raw[:DATA_OFFSET] + forged[sh] + raw[DATA_OFFSET + len(forged[sh]):]
+                        elif sh == tr["damaged"]:
+                            (a, b) = share_fields(raw[DATA_OFFSET:])["share_data"]
+                            pos = DATA_OFFSET + a + tr["dmgpos"] % (b - a)
+                            raw = raw[:pos] + bytes([raw[pos] ^ 0x10]) + raw[pos + 1:]
+                        with open(p, "wb") as fh:
+                            fh.write(raw)
+                    intact = n - len(tr["forged"]) - (1 if tr["damaged"] is not None and tr["damaged"] not in tr["forged"] else 0)
+                    st, val = try_read(rt, fresh_node(c, readcap))
+                    case = {"family": "consistent-forgery", "params": dict(prm, trials=prm["trials"][:ti + 1]),
+                            "fmt": prm["fmt"], "k": k, "n": n, "forged": tr["forged"], "damaged": tr["damaged"],
+                            "intact": intact, "result": st}
+                    if st == "ok" and val not in published:
+                        ctx.violation("read returned bytes that no write-cap holder published: shares that keep the signed prefix and "
+                                      "signature but carry another, mutually consistent, block/hash-tree body were accepted",
+                                      dict(case, got=val.hex()[:80], forged_plaintext=(val == evil)),
+                                      "forged-content-accepted:consistent-forgery")
+                    elif st == "stuck":
+                        ctx.violation("read never completed", case, "read-stuck:consistent-forgery")
+                    elif intact >= k and st != "ok":
+                        ctx.violation("k intact shares of the newest version were reachable but the read failed",
+                                      dict(case, got=val), "newest-not-returned:consistent-forgery")
+                    ctx.case(repr((prm["fmt"], k, n, prm["seed"], prm["policy"], ti, tuple(tr["forged"]), tr["damaged"])))
+                    ctx.count("forgery:%s:j=%s:dmg=%d:%s" % (prm["fmt"], tr["jclass"], tr["damaged"] is not None, st))
+            finally:
+                g.close()
+    finally:
+        publish.DEFAULT_MUTABLE_MAX_SEGMENT_SIZE = saved_seg
+
+
+def gen_forgery_params(rng, fmt, policy):
+    k, n, ns = rng.choice([(2, 4, 4), (3, 5, 5), (3, 10, 10), (2, 3, 6), (3, 6, 7), (1, 3, 3), (2, 6, 6), (2, 5, 7), (3, 7, 7)])
+    trials = []
+    for (jclass, j) in (("k-1", k - 1), ("k", k), ("k+1", min(k + 1, n)), ("N", n)):
+        for dmg in (False, True):
+            if j == 0 and not dmg:
+                continue
+            # which share numbers: the reader activates the lowest share numbers first, so forged
+            # (and damaged) shares placed low are met before the intact ones; also random placements
+            place = rng.choice(["low", "low", "random", "high"])
+            shnums = list(range(n))
+            damaged = None
+            if dmg:
+                damaged = rng.choice(shnums[:k]) if place != "random" else rng.choice(shnums)
+            rest = [s for s in shnums if s != damaged] if j < n else shnums
+            if place == "low":
+                forged = rest[:j]
+            elif place == "high":
+                forged = rest[len(rest) - j:] if j else []
+            else:
+                forged = sorted(rng.sample(rest, min(j, len(rest))))
+            trials.append({"jclass": jclass, "forged": forged, "damaged": damaged, "dmgpos": rng.randrange(1 << 16),
+                           "garbage": rng.random() < 0.3, "fresh_salts": rng.random() < 0.3, "evil": rng.randrange(1 << 30)})
+    rng.shuffle(trials)
+    return {"fmt": fmt, "k": k, "n": n, "servers": ns, "seed": rng.randrange(1 << 30), "policy": policy,
+            "maxseg": rng.choice([16, 24, 50]), "size": rng.choice([1, 33, 90, 200]), "trials": trials}
+
+
+def consistent_forgery_family(ctx, rounds):
+    """Shares that pass the servermap update (genuine prefix + signature + key) and agree with each
+    other but not with the signed root hash: j of them for j in {k-1, k, k+1, N}, with and without one
+    plainly damaged share among the first to be tried, SDMF and MDMF, all delivery policies."""
+    combos = [(f, p) for f in ("SDMF", "MDMF") for p in ("random", "fifo", "lifo")]
+    for r in range(rounds):
+        fmt, policy = combos[r % len(combos)]
+        forgery_scenario(ctx, gen_forgery_params(ctx.rng, fmt, policy))
+
+
+# ----------------------------------------------------------------------------- Retrieve's share hash tree, event by event
+
+class _StubStorageServer:
+    def advise_corrupt_share(self, *a, **k):
+        return None
+
+
+class _StubServer:
+    def __init__(self, i):
+        self.i = i
+
+    def get_serverid(self):
+        return b"srv%017d" % self.i
+
+    def get_name(self):
+        return b"srv%d" % self.i
+
+    def get_storage_server(self):
+        return _StubStorageServer()
+
+
+class _StubNode:
+    def get_pubkey(self):
+        return object()
+
+    def get_privkey(self):
+        return None
+
+    def get_readkey(self):
+        return b"r" * 16
+
+    def get_storage_index(self):
+        return b"s" * 16
+
+    def is_readonly(self):
+        return True
+
+
+def gen_tree_events(rng, n, nfam):
+    evs = []
+    shnums = list(range(n))
+    rng.shuffle(shnums)
+    for sh in shnums[:rng.randrange(1, n + 1)]:
+        r = rng.random()
+        fam = 0 if rng.random() < 0.5 else rng.randrange(nfam)
+        if r < 0.7:
+            evs.append("o:%d:%d" % (sh, fam))
+        elif r < 0.85:
+            evs.append("d:%d:%d:%d" % (sh, fam, rng.randrange(3)))
+        else:
+            evs.append("x:%d" % sh)
+    return evs
+
+
+def run_tree_events_impl(seedfam, n, evs, nfam=3):
+    """The real Retrieve (stub node and servers, real ServerMap): real `_setup_encoding_parameters` +
+    `_setup_download` (which seeds the share hash tree with the root hash of the verinfo), then every
+    event through the real `_validate_block` with `_handle_bad_share` as its errback, exactly as
+    `_process_segment` wires them; share hashes supplied as `_get_needed_hashes` would request them."""
+    from twisted.python.failure import Failure
+    from allmydata import hashtree
+    from allmydata.util import hashutil
+    from allmydata.mutable.retrieve import Retrieve
+    from allmydata.mutable.servermap import ServerMap
+    from allmydata.mutable.common import BadShareError
+    k = 2
+    block = {(f, i): b"family %d share %d" % (f, i) for f in range(nfam) for i in range(n)}
+    trees = [hashtree.HashTree([hashutil.block_hash(block[(f, i)]) for i in range(n)]) for f in range(nfam)]
+    root = trees[seedfam if seedfam is not None else 0][0]
+    verinfo = (1, root, b"i" * 16, 4, 4, k, n, b"the signed prefix", ())
+    sm = ServerMap()
+    servers = [_StubServer(i) for i in range(n)]
+    for i in range(n):
+        sm.add_new_share(servers[i], i, verinfo, 0.0)
+    r = Retrieve(_StubNode(), None, sm, verinfo)
+    r._offset, r._read_length = 0, 4
+    r._setup_encoding_parameters()
+    r._setup_download()
+    if seedfam is None:
+        r.share_hash_tree = hashtree.IncompleteHashTree(n)        # what set_hashes does when it knows no root
+    out = []
+    for ev in evs:
+        t = ev.split(":")
+        sh = int(t[1])
+        reader = r.readers[sh]
+        if reader not in r._active_readers:
+            r._active_readers.append(reader)
+        if t[0] == "x":
+            r._handle_bad_share(Failure(BadShareError("synthetic failure of another kind")), [reader])
+            out.append("r")
+            continue
+        fam = int(t[2])
+        blk = block[(fam, sh)] if t[0] == "o" else b"damaged block %s" % t[3].encode()
+        tree = trees[fam]
+        # as _get_needed_hashes: share hashes are requested only while the tree still needs some for this share
+        sharehashes = {i: tree[i] for i in tree.needed_hashes(sh)} if r.share_hash_tree.needed_hashes(sh) else {}
+        blockhashes = [hashutil.block_hash(blk)]
+        box = []
+        d = r._validate_block(((blk, b"i" * 16), blockhashes, sharehashes), 0, reader, reader.server, 0.0)
+        d.addErrback(r._handle_bad_share, [reader])
+        d.addBoth(box.append)
+        assert box, "_validate_block did not complete synchronously"
+        if isinstance(box[0], Failure):
+            box[0].raiseException()
+        out.append("r" if box[0] is None else "a")
+    top = r.share_hash_tree[0]
+    if top is None:
+        rs = "none"
+    else:
+        fams = [f for f in range(nfam) if trees[f][0] == top]
+        rs = "fam:%d" % fams[0] if fams else "junk"
+    return "%s | %s" % ("".join(out) or "-", rs)
+
+
+def retrieve_tree_cases(ctx, count):
+    import grid
+    lines, impls, cases = [], [], []
+    corpus = [(0, 5, ["o:0:1", "o:1:1", "o:2:1", "o:3:0", "o:4:0"]),          # the reset-variant history
+              (0, 4, ["d:0:0:1", "o:1:1", "o:2:1", "o:3:0"]),
+              (0, 4, ["x:0", "o:1:2", "o:2:2", "o:3:0"]),
+              (None, 4, ["o:0:1", "o:1:1", "o:2:0"]), (None, 3, ["o:2:1", "x:0", "o:1:1"])]
+    with grid.Runtime(seed=0) as rt:
+        for c in range(count + len(corpus)):
+            if c < len(corpus):
+                seedfam, n, evs = corpus[c]
+            else:
+                n = ctx.rng.choice([2, 3, 4, 5, 8, 10])
+                seedfam = None if ctx.rng.random() < 0.15 else ctx.rng.randrange(3)
+                evs = gen_tree_events(ctx.rng, n, 3)
+                if seedfam is None:
+                    # without a trusted root the real tree also keeps the inner nodes of whatever it adopted
+                    # (the model keeps the root only): compare on internally consistent shares only
+                    evs = [e for e in evs if e[0] != "d"] or ["x:0"]
+            impl = run_tree_events_impl(seedfam, n, evs)
+            line = "rt %s %s" % ("-" if seedfam is None else seedfam, " ".join(evs))
+            lines.append(line)
+            impls.append(impl)
+            case = {"seedfam": seedfam, "n": n, "events": evs}
+            cases.append(case)
+            # the statement on the real object: a Retrieve seeded with the signed root never validates a
+            # share of another family, whatever was rejected before
+            if seedfam is not None:
+                for ev, res in zip(evs, impl.split(" | ")[0]):
+                    t = ev.split(":")
+                    if res == "a" and (t[0] == "d" or int(t[2]) != seedfam):
+                        ctx.violation("Retrieve validated a share that does not hash to the signed root", case,
+                                      "forged-content-accepted:retrieve-tree")
+            rejected_before = any(x == "r" for x in impl.split(" | ")[0][:-1])
+            ctx.case(line if rejected_before else None)
+            ctx.count("tree:" + impl.split(" | ")[1].split(":")[0])
+    ctx.compare("Retrieve share-hash-tree decisions (accept/reject per share, final root)", cases, impls, ctx.model(lines))
+
+
+# ----------------------------------------------------------------------------- altered signed prefix next to intact shares
+
+def prefix_alteration_scenario(ctx, prm):
+    """Shares whose signed prefix differs from the published one only in datalength (one byte less, inside
+    the padding of the last segment, so block sizes and hash trees are unaffected), signature kept: the
+    signature no longer matches these shares.  `intact` shares stay genuine (fewer than k, so the genuine
+    version alone is not recoverable).  Whatever order the servers answer in, the read must fail or return
+    the published bytes."""
+    import grid
+    from allmydata.mutable import publish
+    from allmydata.mutable.publish import MutableData
+    from allmydata.interfaces import SDMF_VERSION, MDMF_VERSION
+    fmt = SDMF_VERSION if prm["fmt"] == "SDMF" else MDMF_VERSION
+    k, n, ns = prm["k"], prm["n"], prm["servers"]
+    saved_seg = publish.DEFAULT_MUTABLE_MAX_SEGMENT_SIZE
+    publish.DEFAULT_MUTABLE_MAX_SEGMENT_SIZE = 8 * k
+    try:
+        with grid.Runtime(seed=prm["seed"], policy=prm["policy"]) as rt:
+            g = grid.Grid(grid.fresh_dir("c10p"), rt, num_servers=ns, k=k, happy=1, n=n)
+            try:
+                c = g.clients[0]
+                content = (b"the only version ever published. " * 8)[:prm["size"]]
+                node = rt.wait(c.create_mutable_file(MutableData(content), version=fmt))
+                readcap = node.get_readonly_uri()
+                files = {sh: p for (_i, sh, p) in g.share_files(node.get_storage_index())}
+                pristine = {sh: open(p, "rb").read() for sh, p in files.items()}
+                for ti, intact in enumerate(prm["trials"]):
+                    for sh, p in files.items():
+                        raw = pristine[sh]
+                        if sh not in intact:
+                            (a, b) = share_fields(raw[DATA_OFFSET:])["datalen"]
+                            (dl,) = struct.unpack(">Q", raw[DATA_OFFSET + a:DATA_OFFSET + b])
+                            raw = raw[:DATA_OFFSET + a] + struct.pack(">Q", dl - 1) + raw[DATA_OFFSET + b:]
+                        with open(p, "wb") as fh:
+                            fh.write(raw)
+                    st, val = try_read(rt, fresh_node(c, readcap))
+                    case = {"family": "prefix-alteration", "params": dict(prm, trials=prm["trials"][:ti + 1]), "fmt": prm["fmt"],
+                            "k": k, "n": n, "intact": sorted(intact), "result": st}
+                    if st == "ok" and val != content:
+                        ctx.violation("read returned bytes that no version ever published: shares with an altered signed prefix "
+                                      "(datalength) and the old signature were accepted next to intact ones",
+                                      dict(case, got=val.hex()[:80], got_len=len(val), published_len=len(content)),
+                                      "unpublished-bytes:signed-prefix-altered")
+                    elif st == "stuck":
+                        ctx.violation("read never completed", case, "read-stuck:signed-prefix-altered")
+                    elif len(intact) >= k and st != "ok":
+                        ctx.violation("k intact shares of the newest version were reachable but the read failed",
+                                      dict(case, got=val), "newest-not-returned:signed-prefix-altered")
+                    ctx.case(repr((prm["fmt"], k, n, prm["seed"], prm["policy"], ti, tuple(sorted(intact)))))
+                    ctx.count("prefix-alteration:%s:intact=%s:%s" % (prm["fmt"], "<k" if len(intact) < k else ">=k", st))
+            finally:
+                g.close()
+    finally:
+        publish.DEFAULT_MUTABLE_MAX_SEGMENT_SIZE = saved_seg
+
+
+def prefix_alteration_family(ctx, rounds):
+    combos = [(f, p) for p in ("fifo", "random", "lifo") for f in ("SDMF", "MDMF")]
+    for r in range(rounds):
+        fmt, policy = combos[r % len(combos)]
+        k, n, ns = ctx.rng.choice([(2, 4, 4), (3, 5, 5), (2, 3, 6), (2, 6, 6)])
+        trials = []
+        for _ in range(4):
+            cnt = ctx.rng.choice([1, 1, max(1, k - 1), k])
+            trials.append(sorted(ctx.rng.sample(range(n), cnt)))
+        trials.append([0])
+        trials.append([n - 1])
+        # size: a multiple of k that is not a multiple of the segment size + 1, so that datalength-1 keeps every block size
+        prefix_alteration_scenario(ctx, {"fmt": fmt, "k": k, "n": n, "servers": ns, "seed": ctx.rng.randrange(1 << 30),
+                                         "policy": policy, "size": k * ctx.rng.choice([3, 10, 21]), "trials": trials})
+
+
 def run(ctx):
     import common
     common.setup_impl_path()
+    rc = (ctx.replay or {}).get("case") or {}
+    if rc.get("family") == "consistent-forgery":
+        forgery_scenario(ctx, rc["params"])
+        return
+    if rc.get("family") == "prefix-alteration":
+        prefix_alteration_scenario(ctx, rc["params"])
+        return
     offset_table_corpus(ctx)
+    consistent_forgery_family(ctx, ctx.budget(12, 240))
+    retrieve_tree_cases(ctx, ctx.budget(300, 20000))
+    prefix_alteration_family(ctx, ctx.budget(6, 120))
     single_share_cases(ctx, ctx.budget(3, 60))
     damaged_share_among_few_servers(ctx, ctx.budget(14, 200))
     campaign(ctx, ctx.budget(8, 300))
